@@ -479,7 +479,9 @@ impl PtraceDumper {
             });
 
             let name = match name_result {
-                Ok(name) => Some(name.trim_end().to_string()),
+                // Only the newline the kernel appends is not part of the name; a name may
+                // itself end in whitespace.
+                Ok(name) => Some(name.strip_suffix('\n').unwrap_or(&name).to_string()),
                 Err(e) => {
                     soft_errors.push(InitError::ReadThreadNameFailed(e));
                     None
